@@ -122,8 +122,48 @@ def client(fmt):
     return c
 
 
+class _EndOfStream(BaseException):
+    """raised by the fake socket when the pieces are used up (not an Exception: run() re-raises it untouched)"""
+
+
+def feed_through_run(fmt, raw, cuts):
+    """the pieces arrive through TcpClient.run() itself: a fake socket hands them to recv() one by one and the messages
+    are collected where run() delivers them (handle_messages), so anything run() does to the bytes between recv() and
+    the reader is part of what is observed"""
+    c = client(fmt)
+    pieces, pos = [], 0
+    for cut in list(cuts) + [len(raw)]:
+        if cut <= pos and cut != len(raw):
+            continue
+        pieces.append(bytes(raw[pos:cut]))
+        pos = cut
+    pieces = [p for p in pieces if p]
+
+    class Sock:
+        def __init__(self):
+            self.i = 0
+
+        def recv(self, n):
+            if self.i >= len(pieces):
+                raise _EndOfStream()
+            self.i += 1
+            return pieces[self.i - 1]
+
+    out = []
+    c.socket = Sock()
+    c.connect = lambda: None
+    c.handle_messages = lambda ms: out.extend(m[0] for m in ms)
+    try:
+        c.run()
+    except _EndOfStream:
+        pass
+    return ",".join(out) if out else "-"
+
+
 def feed(fmt, raw, cuts):
     """feed raw in pieces; -> list of messages handed to handle_messages, in order"""
+    if fmt in ("beast", "raw", "skysense") and max((b - a for a, b in zip([0] + list(cuts), list(cuts) + [len(raw)])), default=0) <= 4096:
+        return feed_through_run(fmt, raw, cuts)
     c = client(fmt)
     out = []
     pos = 0
